@@ -277,7 +277,7 @@ def h_drift(shape):
                         break
                 if prev is not None and proto != "no-delay" and cs.in_eom_mode(prev):
                     chobj = cs.channel_obj
-                    need = smax(chobj.phase_jump_time, 2 * chobj.rise_time) + prev.type.fall_time(chobj, in_eom_mode=True)
+                    need = smax(l1.ref_phase_jump_time(chobj), 2 * chobj.rise_time) + prev.type.fall_time(chobj, in_eom_mode=True)
                     differ = NOT(facade._unwrap0(prev.type.phase) == facade._unwrap0(sl.type.phase))
                     obs.append(("c10:eom_phase_jump_gap", IMPLIES(differ, sl.ti - prev.tf >= need)))
                 obs.append(("k4:pulse_phase_compensates_drift",
